@@ -856,9 +856,7 @@ func checkSetSibling(p *core.Prog, r *core.Report, typeName string, set *ssa.Fun
 					okZero = false
 				}
 			default:
-				if len(parsers) > 0 {
-					okZero, why = false, "assigned value "+sx.ValPath(lf)+" is neither the parser's result nor the zero value (old value kept on empty input?)"
-				}
+				okZero, why = false, "assigned value "+sx.ValPath(lf)+" is neither a recognised parser's result, the text itself nor the zero value (old value kept on empty input? memory shared with other values?)"
 			}
 		}
 	}
